@@ -113,7 +113,7 @@ def propose(w: S.SWorld, rng: random.Random, prof: Profile):
     if w.public_scopes:
         cands.append((W["extcancel"], (S.EXTCANCEL, rng.choice(w.public_scopes), 0, 0)))
     live = [t for t, p in w.puppets.items() if not p.finished and (p.task or getattr(p, "pre_task", None)) is not None
-            and not (p.task or p.pre_task).done()]
+            and not (p.task or p.pre_task).done() and not p.in_start_join]
     if live:
         cands.append((W["nativecancel"], (S.NATIVECANCEL, rng.choice(live), 0, 0)))
     nroots = sum(1 for p in w.puppets.values() if not p.spawned)
